@@ -1042,6 +1042,28 @@ class SelRun:
             if rng.random() < 0.2:
                 del sels["sel_global"]
             out.append(self.mk(rng, "report-vs-global", txns, sels, pats))
+        # inline flags: every selector is compiled on its own, so a flag such as `(?i)` in one pattern must not leak into
+        # another one (outside the modelled regex subset: the model answers UNDEF, the python oracle judges these cases)
+        for _ in range(per):
+            pats = Pats(rng)
+            base = rng.choice(["Assets", "Exp", "cash"])
+            other = rng.choice(["Food", "Rent", "bank"])
+            accts = [base + ":x", base.upper() + ":x", base.lower() + ":x", other, other.upper(), other.lower(), "e"]
+            txns = []
+            for i, a in enumerate(accts[:-1]):
+                t = common.gen_header(rng, {}, {"p_uuid": 0.0, "p_loc": 0.0, "p_tags": 0.0, "p_comments": 0.0, "p_code": 0.0, "p_desc": 0.0})
+                t["posts"] = [{"acct": a, "amount": str(i + 1), "unit": None, "comment": None},
+                              {"acct": "e", "amount": str(-(i + 1)), "unit": None, "comment": None}]
+                t["last"] = None
+                txns.append(t)
+            p1 = "(?i)" + base.lower() + "(:.*)?"
+            p2 = other
+            for q in (p1, p2):
+                pats.py[q] = q
+                pats.perl[q] = False
+            lst = [p1, p2] if rng.random() < 0.7 else [p2, p1]
+            key = rng.choice(["sel_global", "sel_register", "sel_balance", "sel_equity"])
+            out.append(self.mk(rng, "inline-flag", txns, {key: lst}, pats))
         n = 200 if tier == "quick" else 8000
         for _ in range(n):
             cfg = {}
